@@ -526,6 +526,17 @@ def resolve_strategy_inline_source(path, base, local_diff, remote_diff):
     return decisions
 
 
+def _inserted_cell_types_differ(decision):
+    """Whether both sides insert a single cell, of different cell types
+
+    Cells can be paired as similar inserts on their ids alone.
+    """
+    lcells = decision.local_diff[0].valuelist
+    rcells = decision.remote_diff[0].valuelist
+    return (len(lcells) == len(rcells) == 1 and
+            lcells[0].get('cell_type') != rcells[0].get('cell_type'))
+
+
 def resolve_strategy_inline_recurse(path, base, decisions):
     strategy = "inline-cells"
 
@@ -548,8 +559,10 @@ def resolve_strategy_inline_recurse(path, base, decisions):
         if chunktype not in ('AR/A', 'A/AR', 'A/A', 'AR/AR'):
             decisions.decisions.append(d)
             continue
-        if d.get('similar_insert', None) is None:
-            # Inserts not similar, cannot recurse. Markup block
+        if (d.get('similar_insert', None) is None or
+                _inserted_cell_types_differ(d)):
+            # Inserts not similar (or cells of different types, which cannot
+            # be merged field by field), cannot recurse. Markup block
             cells = make_inline_cell_conflict(base, d.local_diff, d.remote_diff)
             rdiff = []
             if len(d.local_diff) > 1:
